@@ -1,9 +1,9 @@
 #!/bin/sh
-# Offline setup: patched third-party copies, runtime overlay, orchestrator binary.
+# Offline setup: patched third-party copies, runtime overlay, orchestrator binary, warm caches.
 set -e
 cd "$(dirname "$0")/.."
 export GOFLAGS=-mod=mod GOPROXY=off GOSUMDB=off GOTOOLCHAIN=local
 python3 scripts/setup.py || exit 2
-cp /repo/go.sum go.sum.repo 2>/dev/null || true
 go1.26.8 build -o .build/vcheck ./cmd/vcheck || exit 2
+./.build/vcheck warm || exit 2
 echo "setup: ok"
